@@ -252,18 +252,25 @@ class Report:
 				else:
 					o['confirmed'] += 1
 
-	def run_closed_many(self, items: list) -> None:
-		"""items: [(obligation, module, func, case, bound)] -- closed obligations evaluated in parallel processes"""
+	def start_closed_many(self, items: list):
+		"""items: [(obligation, module, func, case, bound)] -- closed obligations evaluated in parallel processes, in the background;
+		finish_closed_many(handle) registers the results"""
 		ensure_venv()
-		import concurrent.futures
 
 		def one(it):
 			t0 = time.time()
 			return replay(it[1], it[2], {}, it[3]), time.time() - t0
-		with concurrent.futures.ThreadPoolExecutor(max_workers=int(os.environ.get('VERIF_JOBS', '16'))) as ex:
-			results = list(ex.map(one, items))
-		for it, (rp, secs) in zip(items, results):
-			self.run_closed(*it, done=(rp, secs))
+		ex = concurrent.futures.ThreadPoolExecutor(max_workers=int(os.environ.get('VERIF_JOBS', '16')))
+		return ex, items, [ex.submit(one, it) for it in items]
+
+	def finish_closed_many(self, handle) -> None:
+		ex, items, futures = handle
+		for it, fu in zip(items, futures):
+			self.run_closed(*it, done=fu.result())
+		ex.shutdown()
+
+	def run_closed_many(self, items: list) -> None:
+		self.finish_closed_many(self.start_closed_many(items))
 
 	def run_closed(self, obligation: str, module: str, func: str, case: dict, bound: str, done=None) -> None:
 		"""closed obligation (C): a harness function without free variables, evaluated directly against the real code"""
@@ -280,7 +287,7 @@ class Report:
 			self.add_direct(obligation, 'C', bound, 'refuted', cpu_s=secs)
 			self.violation(obligation, f'{func}() fails: {rp.get("raised") or rp.get("returned")} | {rp.get("explain", "")}', {'property': self.prop, 'obligation': obligation, 'module': module, 'func': func, 'args': {}, 'case': case, 'replay': rp})
 		else:
-			self.add_direct(obligation, 'C', bound, 'confirmed', cpu_s=secs, sample={'obligation': obligation, 'closed': f'{module}.{func}()', 'verdict': 'holds (evaluated directly, no free variable)'})
+			self.add_direct(obligation, 'C', bound, 'confirmed', cpu_s=secs, queries=max(1, (rp.get('cover') or {}).get('member', 0)), sample={'obligation': obligation, 'closed': f'{module}.{func}()', 'verdict': 'holds (evaluated directly, no free variable)'})
 
 	# -- closed / direct obligations ------------------------------------------
 	def add_direct(self, obligation: str, kind: str, bound: str, status: str, detail: str = '', cpu_s: float = 0.0, sample=None, queries: int = 1) -> None:
@@ -319,7 +326,7 @@ class Report:
 			'traces_validated_against_impl': self.replays,
 			'evaluations': max(self.paths, 1),
 			'distinct_nontrivial': self.reach,
-			'rule': 'evaluations = execution paths / solver queries explored (each decided by z3 through CrossHair or a direct query); '
+			'rule': 'evaluations = execution paths / solver queries explored (each decided by z3 through CrossHair or a direct query) plus the members of closed (kind C, enumerated) obligations evaluated directly against the real code; '
 				'distinct_nontrivial = paths that satisfied every precondition and reached the postcondition (each path is a distinct path-condition class of inputs), counted by the harness itself',
 			'samples': self.samples or [{'note': 'no confirmed case on this run'}],
 			'obligations': n_cases,
